@@ -27,6 +27,17 @@ def int_to_chars(I, v):
     hit = cache.get(key)
     if hit is not None:
         return list(hit[1])
+    src = w.__dict__.setdefault('_digit_src', {}).get(key)
+    if src is not None:
+        # the value was parsed from these decimal digits: print them back (minus leading zeros) instead of asking the
+        # solver to re-derive a unique decimal expansion
+        body = list(src[1])
+        k = 0
+        while k < len(body) - 1 and w.branch(body[k] == 48):
+            k += 1
+        out = body[k:]
+        cache[key] = (v, out)
+        return list(out)
     if w.branch(v < 0):
         out = [45] + int_to_chars(I, -v)
         cache[key] = (v, out)
@@ -79,6 +90,14 @@ def parse_int(I, cs, ty):
             return perr(1)
     if not w.branch(conj([C.p_ascii_digit(c) for c in body])):
         return perr(1)
+    maxd = len(str(hi))
+    if len(body) > maxd and not negv:
+        # more digits than the type can hold: either the surplus leading digits are all zero, or it overflows
+        lead = body[:len(body) - maxd]
+        if w.branch(conj([c == 48 for c in lead])):
+            body = body[len(body) - maxd:]
+        else:
+            return perr(2)
     n = len(body)
     terms = []
     for i, c in enumerate(body):
@@ -99,6 +118,7 @@ def parse_int(I, cs, ty):
             return ok(val)
         return perr(3)
     if w.branch(val <= hi):
+        w.__dict__.setdefault('_digit_src', {})[val.get_id()] = (val, list(body))
         return ok(val)
     return perr(2)
 
